@@ -103,8 +103,20 @@ theorem fastLoop_ok (c sn ts fr : U32) : ∀ l : List Seg, (∀ s ∈ l, SegOk c
         · exact h _ (List.mem_cons_self ..)
         · exact hr s hs
 
+theorem dropAcked_mem {s : Seg} : ∀ {l : List Seg}, s ∈ dropAcked l → s ∈ l := by
+  intro l
+  induction l with
+  | nil => intro h; simp [dropAcked] at h
+  | cons a t ih =>
+    intro h
+    unfold dropAcked at h
+    split at h
+    · exact List.mem_cons_of_mem _ (ih h)
+    · exact h
+
+/-- `shrink_buf` pops the leading acked segments and moves `snd_una`: members stay members -/
 theorem shrinkBuf_good {c : U32} {k : Kcp} (h : Good c k) : Good c (shrinkBuf k) := by
-  rw [Live.shrinkBuf_eq]; exact h
+  rw [Live.shrinkBuf_eq]; exact ⟨h.1, fun s hs => h.2 s (dropAcked_mem hs)⟩
 
 theorem parseUna_good {c : U32} {k : Kcp} (una : U32) (h : Good c k) : Good c (parseUna k una).1 :=
   ⟨h.1, fun s hs => h.2 s (List.mem_of_mem_drop hs)⟩
@@ -142,7 +154,7 @@ theorem inBody_good (c : U32) (regular : Bool) (data : Bytes) (st : InLoop) (h :
   generalize Kcp.inSt1 regular (rd16 data 6) (rd32 data 16) st = st1 at h1
   split
   · unfold Kcp.inAck
-    exact parseFastack_good _ _ (parseAck_good _ h1)
+    exact parseFastack_good _ _ (shrinkBuf_good (parseAck_good _ h1))
   · split
     · unfold Kcp.inPush
       simp only []
